@@ -129,6 +129,36 @@ Theorem cfg_analyze_order_independent : forall g D0 M0 inout, wf_cfg g = true ->
 Proof. exact cfg_analyze_order_independent_lemma. Qed.
 Print Assumptions cfg_analyze_order_independent.
 
+(** ** The executable results meet the path-based solutions (what C06/C08/C10 consume) *)
+
+Theorem liveness_correct : forall incl g I, wf_cfg g = true -> forall sched b x, b < nblocks g ->
+  (~ In x I -> (In x (getv (liveness Repaired incl g I sched) b) <-> live_on_path incl g x b)) /\
+  (In x I -> (~ In x (getv (liveness Repaired incl g I sched) b) <-> dead_on_all_paths incl g x b)).
+Proof. exact liveness_correct_lemma. Qed.
+Print Assumptions liveness_correct.
+
+Theorem assignment_correct : forall g D0 M0, wf_cfg g = true -> forall sched b x, b < nblocks g ->
+  (In x (getv (fst (assignment Repaired g D0 M0 sched)) b) <->
+     In x (all_vars g D0) /\ ~ unassigned_before g D0 x b) /\
+  (~ In x M0 -> (In x (getv (snd (assignment Repaired g D0 M0 sched)) b) <-> assigned_before g D0 x b)) /\
+  (In x M0 -> (~ In x (getv (snd (assignment Repaired g D0 M0 sched)) b) <-> never_assigned_before g D0 x b)).
+Proof. exact assignment_correct_lemma. Qed.
+Print Assumptions assignment_correct.
+
+(* CFG.analyze(D0, M0, inout) = the two analyses on the CFG whose exit reads the borrowed
+   variables, liveness started from the borrowed variables, dummy edges included *)
+Theorem cfg_analyze_is : forall g D0 M0 inout s1 s2,
+  cfg_analyze Repaired g D0 M0 inout s1 s2 =
+  (liveness Repaired true (with_exit_uses g inout) inout s1,
+   fst (assignment Repaired (with_exit_uses g inout) D0 M0 s2),
+   snd (assignment Repaired (with_exit_uses g inout) D0 M0 s2)) /\
+  (wf_cfg g = true -> wf_cfg (with_exit_uses g inout) = true) /\
+  nblocks (with_exit_uses g inout) = nblocks g.
+Proof.
+  intros. split; [apply cfg_analyze_eq|]. split; [apply wf_with_exit_uses | apply nblocks_with_exit_uses].
+Qed.
+Print Assumptions cfg_analyze_is.
+
 (** ** Refutations (findings) *)
 
 Definition pue_cfg : cfg :=   (* entry P = 0, exit E = 1, unreachable U = 2 reading x = 7 *)
